@@ -6,7 +6,7 @@ from core import enc, q
 ID = "C01"
 HEAP_SUMMARY = True      # end every program with the reference-level observation (BB.Model.Heap vs id() walk)
 LEAN_MODULE = "BB.Properties.C01"
-QUICK_N = 300
+QUICK_N = 600
 THOROUGH_N = 6000
 ERRCLASS = False
 RULE = ("blueprints of 1-8 segments (thorough: up to 40) mixing ramp/sine/gaussian/gaussian_smooth_cutoff/user functions "
